@@ -56,6 +56,14 @@ def expressions():
         t1, t2 = term(p1[0], p1[1], 1, "plain"), term(p2[0], p2[1], 1, "grp")
         v = (OFF[p1[0]] - OFF[p1[1]]) + (OFF[p2[0]] - OFF[p2[1]])
         out.append(("%s+%o+%s" % (t1, K, t2), K + v))
+    # aliases of labels, defined before the labels exist (see make_program: 'qa = a' ... are emitted on top when used)
+    for k in (1, 2, -1, -2):
+        for (x, y) in (("c", "a"), ("b", "a"), ("c", "b")):
+            v = k * (OFF[x] - OFF[y])
+            kk = ("%d*" % k) if k > 0 else ("0-%d*" % -k)
+            out.append(("%o+%s<q%s-q%s>" % (K, kk, x, y), K + v))
+            out.append(("%o+%s<q%s-%s>" % (K, kk, x, y), K + v))
+            out.append(("%o+%s<%s-q%s>" % (K, kk, x, y), K + v))
     # the classic: K + end - start in several orders, unbracketed
     out += [("c-a+%o" % K, K + 10), ("%o+c-a" % K, K + 10), ("c+%o-a" % K, K + 10), ("0-a+c+%o" % K, K + 10), ("%o+a-b" % K, K - 6), ("%o-a+b" % K, K + 6)]
     seen, res = set(), []
@@ -90,6 +98,9 @@ def make_program(directive, pos, deferred, symform, expr, colon=":"):
     if deferred:
         post_defs.append("n6 = 6")
     out = list(pre_defs)
+    for al in ("qa", "qb", "qc"):
+        if al in expr:
+            out.insert(0, "%s = %s" % (al, al[1]))
     for i, s in enumerate(stm[:3]):
         if pos == i:
             out.append(d)
